@@ -16,9 +16,43 @@ impl ResolvedFragment {
 }
 
 pub(crate) fn fragment_is_recursive(fragment_id: ResolvedFragmentId, query: &Query) -> bool {
-    let fragment = query.get_fragment(fragment_id);
+    // A fragment is recursive when it can reach itself through fragment spreads, directly or
+    // through other fragments (`A` spreads `B`, `B` spreads `A`).
+    let mut visited = Vec::new();
+    let mut to_visit = vec![fragment_id];
 
-    query
-        .walk_selection_set(&fragment.selection_set)
-        .any(|(_id, selection)| selection.contains_fragment(fragment_id, query))
+    while let Some(current) = to_visit.pop() {
+        let fragment = query.get_fragment(current);
+
+        for spread in spreads_in_selection_set(&fragment.selection_set, query) {
+            if spread == fragment_id {
+                return true;
+            }
+
+            if !visited.contains(&spread) {
+                visited.push(spread);
+                to_visit.push(spread);
+            }
+        }
+    }
+
+    false
+}
+
+/// All the fragments spread anywhere in a selection set (not following the spreads).
+fn spreads_in_selection_set(
+    selection_set: &[SelectionId],
+    query: &Query,
+) -> Vec<ResolvedFragmentId> {
+    let mut spreads = Vec::new();
+    let mut to_visit: Vec<SelectionId> = selection_set.to_vec();
+
+    while let Some(selection_id) = to_visit.pop() {
+        match query.get_selection(selection_id) {
+            super::Selection::FragmentSpread(id) => spreads.push(*id),
+            selection => to_visit.extend_from_slice(selection.subselection()),
+        }
+    }
+
+    spreads
 }
